@@ -41,6 +41,7 @@ REQUIRED = ['pdf_rows_checked', 'logpdf_rows_checked', 'rows_zero_density', 'row
             'rvs_rows_checked', 'grad_points_checked', 'shape_checks', 'sel_sorted', 'sel_perm', 'sel_subset',
             'specs_hierarchical', 'specs_custom_dist', 'grad_integer_typed_points_checked', 'grad_float32_points_checked', 'grad_mixed_inside_outside_matrices', 'rows_where_the_product_underflows_but_no_conditional_is_zero']
 
+KNOWN_NAN = 'nan-where-a-zero-density-parent-invalidates-a-child'
 NPTS = 40
 MARGIN = 0.05          # interior margin for gradient points (>= 100 x the reference step)
 HREF = 2e-4            # step of the Richardson reference
@@ -396,6 +397,24 @@ def run_case(ctx, case):
 
     got_p = np.asarray(P.pdf(X))
     got_l = np.asarray(P.logpdf(X))
+    # rows where one conditional density is zero AND another one has no value at all (a parent outside its own support
+    # drives a child's scale/shape out of its domain): the product has a zero factor, so the statement demands 0 / -inf.
+    # elfi multiplies 0 by nan there - recorded as a known finding (mechanism key below), any other answer is a violation.
+    Lz = np.where(np.isnan(L), 0.0, L)
+    inv_zero = ~valid & np.isneginf(Lz).any(1) & ~np.isposinf(L).any(1)
+    for i in np.where(inv_zero)[0]:
+        ctx.event('rows_zero_conditional_and_invalid_child')
+        if got_p[i] == 0 and np.isneginf(got_l[i]):
+            continue
+        if (np.isnan(got_p[i]) or got_p[i] == 0) and (np.isnan(got_l[i]) or np.isneginf(got_l[i])):
+            if not case.get('_known_reported'):
+                case['_known_reported'] = True
+                ctx.violation(KNOWN_NAN, 'pdf=%r logpdf=%r at a point where one conditional density is zero and a child of that parameter has '
+                              'invalid arguments; the product of the conditional densities has a zero factor' % (got_p[i], got_l[i]),
+                              {'order': order, 'x': X[i], 'conditional_logpdfs': {n: cl[n][i] for n in order}})
+            continue
+        raise Violation('pdf-zero-set', 'pdf=%r logpdf=%r at a point where a conditional density is zero (another conditional has invalid '
+                        'arguments there)' % (got_p[i], got_l[i]), {'order': order, 'x': X[i]})
     # second evaluation: the value may not depend on an internal draw / state
     got_p2 = np.asarray(P.pdf(X))
     for nm, g in (('pdf', got_p), ('logpdf', got_l)):
